@@ -48,7 +48,7 @@ var panicScope = map[string]func(string) bool{
 // panicFacts renders the `skeletons` part of Generated/C19.lean.
 func panicFacts(repo string) string {
 	var b strings.Builder
-	an, err := c09.AnalyseWith(repo, panicScope, panicAllow)
+	an, err := c09.AnalyseDerived(repo, panicScope, panicAllow, deriveAllow)
 	if err != nil {
 		fmt.Fprintf(&b, "/- panic skeleton extraction failed: %s -/\n", strings.ReplaceAll(err.Error(), "-/", "- /"))
 		b.WriteString("def skeletons : Option (List (String × XmppModel.Skeleton.Stmt)) := none\n")
@@ -103,7 +103,7 @@ func panicFacts(repo string) string {
 
 // panicSkeletons returns (name, dotted code) of every effectful panic skeleton of the tree.
 func panicSkeletons(repo string) (out [][2]string, trusted int, err error) {
-	an, err := c09.AnalyseWith(repo, panicScope, panicAllow)
+	an, err := c09.AnalyseDerived(repo, panicScope, panicAllow, deriveAllow)
 	if err != nil {
 		return nil, 0, err
 	}
